@@ -63,7 +63,7 @@ class OWElement(MemoryElement):
         if mem.id == self.id:
             if addr == 0:
                 if self._parse_and_check_header(data[0:8]):
-                    if self._parse_and_check_elements(data[9:11]):
+                    if data[9] == 0 and self._parse_and_check_elements(data[8:11]):
                         self.valid = True
                         self._update_finished_cb(self)
                         self._update_finished_cb = None
